@@ -234,7 +234,7 @@ def check_system(spec, T, runs, cnt, single=False):
                 continue
             bound = 2.0 * rho ** reg.to(F64) * e0 * (1 + 1e-6) + floor
             ne += 1
-            normal = torch.tensor([kd in "nhs" for kd in spec["cols"]]).expand(*batch, c)
+            normal = torch.tensor([kd in "nhs56789" for kd in spec["cols"]]).expand(*batch, c)
             bad = (errs[gi] > bound) & normal
             if bool(bad.any()):
                 idx = torch.nonzero(bad)[0].tolist()
@@ -325,8 +325,16 @@ def check_tmat(sp, T, obs, A, its):
     # another column / batch member.  Rows the budget allowed: one per executed loop body (the loop body that breaks on the
     # tolerance writes none), at most n_tridiag_iter = min(max_tridiag_iter, n).  The column's own couplings come from an
     # independent dense Lanczos process with full re-orthogonalisation on Ahat = M^-1/2 A M^-1/2 started at M^-1/2 r0.
-    _, mt_eff, _ = eff_limits(sp, obs)
-    rows_allowed = min(its - (0 if obs["warn"] else 1), min(mt_eff, n))
+    # The loop body that breaks must not come before the requested number of Lanczos steps is complete: the exit clause
+    # `not (n_tridiag and k < min(n_tridiag_iter, max_iter - 1))` is part of the stopping rule of the property, so without a
+    # breakdown a column gets min(n_tridiag_iter, max_iter - 1) rows at least, whatever the tolerance.
+    mi_eff, mt_eff, _ = eff_limits(sp, obs)
+    nti = min(mt_eff, n)
+    n_iter = min(mi_eff, n) if obs["settings"]["tcs"] else mi_eff
+    if obs["warn"]:
+        rows_allowed = min(n_iter, nti)
+    else:
+        rows_allowed = max(min(its - 1, nti), min(nti, mi_eff - 1, n_iter))
     ne += 1
     if 1 <= m < rows_allowed and bool(usable.any()):
         f = truncated_columns(sp, T, A, Minv, r0q, tq, usable, m, rows_allowed, lam_p)
@@ -501,3 +509,72 @@ def check_scaling(sp, T, obs, obs_c, c):
         if (obs["tmat"] is None) != (obs_c["tmat"] is None) or (obs["tmat"] is not None and not torch.equal(obs["tmat"], obs_c["tmat"])):
             fails.append(fail(sp, "scaling", "t_mat changes under scaling of the rhs by %g" % c))
     return fails, 1
+
+
+def scaling_factor(spec):
+    """4 everywhere; 2^12 for the systems with tiny-norm columns (kinds 5..9), so that every rung of the ladder is carried
+    across the range in which a precision-dependent zero test would change its mind"""
+    return 4096.0 if any(kd in "56789" for kd in spec["cols"]) else 4.0
+
+
+def check_op(sp, T, obs_direct, obs_op, entry, debug):
+    """operator-level entry point vs the property and vs the direct call of linear_cg with the same settings.
+    sp: the resolved spec of the direct call (limits and tolerance from the settings)."""
+    fails, ne = [], 0
+    spo = dict(sp, op_entry=entry, op_debug=bool(debug))
+    ne += 1
+    if obs_op["err"] != obs_direct["err"]:
+        fails.append(fail(spo, "op-raises", "%s (debug %s) raised %s, linear_cg with the same settings %s" % (
+            entry, debug, obs_op["err"], obs_direct["err"] or "returned"), symptom="raises"))
+        return fails, ne
+    if obs_op["err"] is not None:
+        return fails, ne
+    batch, n, c = S.full_shapes(sp)
+    A = as_run(T["A"], sp)
+    rhs = S.expand_cols(as_run(T["rhs"], sp), sp)
+    _, _, tol = eff_limits(sp, obs_direct)
+    eps = 1e-10
+    bn = rhs.norm(dim=-2, keepdim=True)
+    rhs_zero = bn < eps
+    nrm = torch.where(rhs_zero, torch.ones_like(bn), bn)
+    me = mach_eps(sp)
+    lam = torch.linalg.eigvalsh(A)
+    normA = float(lam[..., -1].max())
+    if entry in ("solve", "_solve"):
+        x = obs_op["res"].to(F64)
+        if x.dim() == len(batch) + 1:
+            x = x.unsqueeze(-1)
+        x = x.expand(*batch, n, c)
+        xh = x / nrm
+        rn = (rhs / nrm - A @ xh).norm(dim=-2, keepdim=True)
+        drift = 2e3 * me * (normA * xh.norm(dim=-2, keepdim=True) + 1.0) * math.sqrt(n)
+        rn_masked = torch.where(rhs_zero, torch.zeros_like(rn), rn)
+        # the property at the operator level: no NumericalWarning => mean relative residual below the tolerance in force
+        ne += 1
+        if not obs_op["warn"] and float(rn_masked.mean()) >= tol + float(drift.mean()):
+            fails.append(fail(spo, "op-no-warning", "%s through a LinearOperator (settings.debug %s, max_cg_iterations %s, cg_tolerance %g) "
+                              "issued no NumericalWarning but the mean relative residual is %g" % (
+                                  entry, "on" if debug else "off", obs_direct["settings"]["max_cg"], tol, float(rn_masked.mean()))))
+        # the operator-level call is the direct call: same values, same warning
+        ne += 1
+        d = obs_direct["res"]
+        if d is not None and tuple(d.shape) == tuple(obs_op["res"].shape) and not torch.equal(d, obs_op["res"]):
+            fails.append(fail(spo, "op-result", "%s returns values different from linear_cg(op._matmul, rhs, max_iter=max_cg_iterations, ...) "
+                              "(max abs difference %g)" % (entry, float((d - obs_op["res"]).abs().max()))))
+    else:
+        iq = float(obs_op["res"].to(F64).sum())
+        xs = torch.linalg.solve(A, rhs)
+        want = float((rhs * xs).sum())
+        # |b^T (x - x*)| <= ||b|| ||r|| / lambda_min with ||r_j|| <= C tol ||b_j|| when the mean relative residual is < tol
+        C = c * max(S.prod(batch), 1)
+        bound = C * tol * float((bn ** 2).sum()) / float(lam[..., 0].min()) + 1e-9 * abs(want)
+        ne += 1
+        if not obs_op["warn"] and abs(iq - want) > bound:
+            fails.append(fail(spo, "op-no-warning", "inv_quad through a LinearOperator (settings.debug %s, cg_tolerance %g) issued no NumericalWarning "
+                              "but returned %.12g for b^T A^-1 b = %.12g (allowed error %g)" % ("on" if debug else "off", tol, iq, want, bound)))
+    ne += 1
+    if obs_op["warn"] != obs_direct["warn"]:
+        fails.append(fail(spo, "op-warning", "%s through a LinearOperator (settings.debug %s) %s a NumericalWarning, linear_cg with the same "
+                          "settings %s" % (entry, "on" if debug else "off", "issued" if obs_op["warn"] else "did not issue",
+                                           "did" if obs_direct["warn"] else "did not")))
+    return fails, ne
